@@ -40,7 +40,7 @@ def run_version(args):
     rng = random.Random(seed * 7919 + ver)
     traces, metas = [], []
 
-    async def one(rig, pend_cmd, raw, label):
+    async def one(rig, pend_cmd, raw, label, swap=False):
         """[pending call] ; malformed frame ; answer the pending call if it is still there ; probe"""
         t = rig.t
         c = 1
@@ -56,13 +56,17 @@ def run_version(args):
                 await rig.tick()
             elif stale == "stale-cancel":
                 await rig.cancel(c)
+        if swap:
+            # the protocol handler is replaced while the call is still waiting (EZSP.reset() -> legacy handler): whatever arrives
+            # afterwards must not complete the orphaned call - frame IDs mean other commands in the other version
+            await rig.swap()
         n_cb = len(rig.out)
         rig._last_cb_args = None
         ev = await rig.frame(0, "", 0, raw=bytes(raw), kind="mal")
-        ev["ver"] = ver
+        ev["ver"] = rig.version
         ev["ids"] = sorted(int(cid) for cid, _a, _b in rig.cmds.values())
         ev["icid"] = int(rig.cmds["invalidCommand"][0])
-        ev["pid"] = int(rig.cmds[pend_cmd][0]) if pend_cmd else -1
+        ev["pid"] = int(rig.cmds[pend_cmd][0]) if pend_cmd and not swap else -1
         cbs = [o for o in ev["out"] if o["o"] == "cb"]
         ev["cbid"] = int(rig.cmds[cbs[0]["cmd"]][0]) if cbs and cbs[0]["cmd"] in rig.cmds else -1
         ev["reenc"] = list(rig.last_cb_reenc) if cbs else []
@@ -70,7 +74,9 @@ def run_version(args):
         ev["nfields"] = len(rig.cmds[cbs[0]["cmd"]][2]) if cbs and cbs[0]["cmd"] in rig.cmds and isinstance(rig.cmds[cbs[0]["cmd"]][2], dict) else 0
         ev["raw"] = list(raw)
         done = {o["c"] for e in rig.trace for o in e["out"] if o["o"] == "done"}
-        if pend is not None and c not in done:
+        if swap:
+            await rig.tick()               # the orphaned call ends with its own command timeout
+        elif pend is not None and c not in done:
             # the registration may have been dropped by the frame: then this reply goes to the callbacks and the call times out
             await rig.frame(pend["seq"], pend_cmd, 21)
         await rig.call(2, "getNodeId")
@@ -81,7 +87,7 @@ def run_version(args):
         if sent2:
             await rig.frame(sent2[-1]["seq"], "getNodeId", 22)
 
-    def job(pend_cmd, raw, label):
+    def job(pend_cmd, raw, label, swap=False):
         async def script(rig):
             rig.last_cb_reenc = b""
             orig = rig._cb
@@ -94,13 +100,13 @@ def run_version(args):
                     rig.last_cb_reenc = b"\xff" * 300
                 orig(name, args)
             rig.ezsp._callbacks = {k: (cb if v == orig else v) for k, v in rig.ezsp._callbacks.items()}
-            await one(rig, pend_cmd, raw, label)
+            await one(rig, pend_cmd, raw, label, swap)
         tr = ezsprig.run_script(ver, script)
         for e in tr:
             if e["a"] != "mal":
                 e.pop("raw", None)
         traces.append(tr)
-        metas.append({"ver": ver, "pend": pend_cmd, "raw": bytes(raw).hex(), "label": label})
+        metas.append({"ver": ver, "pend": pend_cmd, "raw": bytes(raw).hex(), "label": label, "swap": swap})
 
     # a throw-away rig to build base frames
     async def build(rig):
@@ -173,6 +179,18 @@ def run_version(args):
                 vals = [gen(ty, rng) for ty in cmds[name][2].values()]
                 raw = ncp_ezsp.make_header(ncp_ezsp.layout_of(ver), 0, int(cmds[name][0]), response=True) + b"".join(v.serialize() for v in vals)
                 job(f"{st}:{pc}", raw, "late:" + name)
+    # a handler swap (reset -> legacy handler) with a call still waiting, then legacy frames under the orphan's sequence number: above all
+    # the version-4 command that owns the same numeric frame ID as the orphaned command
+    cmds4 = ncp_ezsp.commands_of(4)
+    by_id4 = {int(c[0]): n for n, c in cmds4.items()}
+    for pc in [c for c in ("getNodeId", "setSourceRouteDiscoveryMode", "nop", "getEui64", "setPolicy", "getValue", "networkState", "sendUnicast",
+                           "setConfigurationValue", "getTokenData", "setConcentrator") if c in cmds and isinstance(cmds[c][1], dict)]:
+        same = by_id4.get(int(cmds[pc][0]))
+        for name4 in {n for n in (same, "getNodeId", "stackStatusHandler", "invalidCommand", "nop") if n is not None and isinstance(cmds4[n][2], dict)}:
+            for sq in (0, 1):
+                vals = [gen(ty, rng) for ty in cmds4[name4][2].values()]
+                raw = ncp_ezsp.make_header("legacy3", sq, int(cmds4[name4][0]), response=True) + b"".join(v.serialize() for v in vals)
+                job(pc, raw, "swap:" + name4, swap=True)
     for _ in range(n_random):                                      # uniformly random byte strings
         raw = bytes(rng.randrange(256) for _ in range(rng.choice((0, 1, 2, 3, 4, 5, 6, 8, 12, 30))))
         job(rng.choice((None, "getNodeId", "sendUnicast", "readCounters")), raw, "random")
@@ -238,17 +256,22 @@ def replay(ctx: Ctx, data):
                 await rig.tick()
             elif stale == "stale-cancel":
                 await rig.cancel(1)
+        swap = bool(m.get("swap"))
+        if swap:
+            await rig.swap()
         ev = await rig.frame(0, "", 0, raw=raw, kind="mal")
-        ev["ver"] = ver
+        ev["ver"] = rig.version
         ev["ids"] = sorted(int(cid) for cid, _a, _b in rig.cmds.values())
         ev["icid"] = int(rig.cmds["invalidCommand"][0])
-        ev["pid"] = int(rig.cmds[pend_cmd][0]) if pend_cmd else -1
+        ev["pid"] = int(rig.cmds[pend_cmd][0]) if pend_cmd and not swap else -1
         cbs = [o for o in ev["out"] if o["o"] == "cb"]
         ev["cbid"] = int(rig.cmds[cbs[0]["cmd"]][0]) if cbs and cbs[0]["cmd"] in rig.cmds else -1
         ev["reenc"] = list(rig.last_cb_reenc) if cbs else []
         ev["nvals"] = rig.last_cb_n if cbs else 0
         ev["nfields"] = len(rig.cmds[cbs[0]["cmd"]][2]) if cbs and cbs[0]["cmd"] in rig.cmds and isinstance(rig.cmds[cbs[0]["cmd"]][2], dict) else 0
         ev["raw"] = list(raw)
+        if swap:
+            await rig.tick()
     tr = ezsprig.run_script(ver, script)
     for e in tr:
         if e["a"] != "mal":
